@@ -110,6 +110,10 @@ func VerifC14Signatures() {
 	rep0, rep1 := vInt("rep0"), vInt("rep1")
 	vAssume(rep0 >= 0 && rep0 <= 4 && rep1 >= 0 && rep1 <= 4)
 	vAssume(alphaC("addNextEpochNodes", cid14, 0, []any{vKey("m0"), vKey("m1")}))
+	if vParam(3) == 1 { // a second batch lists m0 again: the roster holds one key at two positions, which must
+		// still count as ONE member
+		vAssume(alphaC("addNextEpochNodes", cid14, 0, []any{vKey("m0")}))
+	}
 	reps := []any{rep0}
 	if vectors == 2 {
 		vAssume(alphaC("addNextEpochNodes", cid14, 1, []any{vKey("m2")}))
